@@ -9,7 +9,7 @@ use lora_modulation::{Bandwidth, CodingRate, SpreadingFactor};
 use lora_phy::mod_params::{DutyCycleParams, RadioError, RadioMode};
 use lora_phy::mod_traits::RadioKind;
 use lora_phy::sx126x::{self, Sx1262, Sx126x, TcxoCtrlVoltage};
-use lora_phy::sx127x::{self, Sx1276, Sx127x};
+use lora_phy::sx127x::{self, Sx1272, Sx1276, Sx127x};
 use lora_phy::lr1110::{self, Lr1110};
 use lora_phy::lorawan_radio::{Error as LwError, LorawanRadio};
 use lora_phy::{LoRa, RxMode};
@@ -65,7 +65,7 @@ pub fn irq_variants(chip: &str, call: &str) -> Vec<Vec<u16>> {
             _ => vec![vec![]],
         };
     }
-    if base_chip(chip) == "sx1276" {
+    if is_127(chip) {
         // RegIrqFlags: RxTimeout 0x80, RxDone 0x40, PayloadCrcError 0x20, ValidHeader 0x10, TxDone 0x08, CadDone 0x04, CadDetected 0x01
         return match call {
             "tx" => vec![vec![0x08], vec![0, 0x08]],
@@ -100,6 +100,8 @@ struct Script {
 type Dev6 = LoRa<Sx126x<MockSpi, MockIv, Sx1262>, MockDelay>;
 type Dev7 = LoRa<Sx127x<MockSpi, MockIv, Sx1276>, MockDelay>;
 
+type Dev72 = LoRa<Sx127x<MockSpi, MockIv, Sx1272>, MockDelay>;
+type Lw72 = LorawanRadio<Sx127x<MockSpi, MockIv, Sx1272>, MockDelay, 20, 0>;
 type Dev11 = LoRa<Lr1110<MockSpi, MockIv>, MockDelay>;
 type Lw11 = LorawanRadio<Lr1110<MockSpi, MockIv>, MockDelay, 22, 0>;
 type Lw6 = LorawanRadio<Sx126x<MockSpi, MockIv, Sx1262>, MockDelay, 22, 0>;
@@ -114,10 +116,17 @@ enum Dev {
     /// LR1110 (16-bit opcodes, responses in a separate transaction), plain and behind the adapter
     E(Dev11),
     F(Lw11),
+    /// SX1272 (the other SX127x variant: same register map for everything C14 looks at)
+    G(Dev72),
+    H(Lw72),
 }
 
 /// calls of the LoRaWAN adapter (`PhyRxTx`)
 pub const LW_CALLS: [&str; 6] = ["lw_tx", "lw_setup_single", "lw_setup_cont", "lw_rx_single", "lw_rx_cont", "lw_low_power"];
+
+fn is_127(chip: &str) -> bool {
+    matches!(base_chip(chip), "sx1276" | "sx1272")
+}
 
 fn base_chip(chip: &str) -> &str {
     chip.strip_suffix("-lw").unwrap_or(chip)
@@ -169,7 +178,7 @@ impl PhyRun {
         let bus = Bus::new();
         let script = Rc::new(RefCell::new(Script { irq: VecDeque::new(), regs: [0; 128], pending: None }));
         let s2 = script.clone();
-        let is127 = base_chip(chip) == "sx1276";
+        let is127 = is_127(chip);
         let is11 = base_chip(chip) == "lr1110";
         if is11 {
             let s3 = script.clone();
@@ -241,7 +250,7 @@ impl PhyRun {
 
     /// SX127x: remember register writes (the responder serves them back)
     fn absorb_writes(&mut self) {
-        if base_chip(&self.chip) != "sx1276" {
+        if !is_127(&self.chip) {
             return;
         }
         let b = self.bus.borrow();
@@ -268,6 +277,8 @@ impl PhyRun {
             Some(Dev::D(d)) => Some(d.verif_state()),
             Some(Dev::E(d)) => Some(d.verif_state()),
             Some(Dev::F(d)) => Some(d.verif_state()),
+            Some(Dev::G(d)) => Some(d.verif_state()),
+            Some(Dev::H(d)) => Some(d.verif_state()),
             None => None,
         };
         match st {
@@ -306,6 +317,13 @@ impl PhyRun {
                         },
                     );
                     block_on_budget(LoRa::new(rk, true, MockDelay), 16).map(|r| r.map(|d| if lw { Dev::F(d.into()) } else { Dev::E(d) }))
+                } else if base_chip(&chip) == "sx1272" {
+                    let rk = Sx127x::new(
+                        MockSpi(bus.clone()),
+                        MockIv(bus.clone()),
+                        sx127x::Config { chip: Sx1272, tcxo_used: true, tx_boost: true, rx_boost: false },
+                    );
+                    block_on_budget(LoRa::new(rk, true, MockDelay), 16).map(|r| r.map(|d| if lw { Dev::H(d.into()) } else { Dev::G(d) }))
                 } else if base_chip(&chip) == "sx1276" {
                     let rk = Sx127x::new(
                         MockSpi(bus.clone()),
@@ -342,6 +360,8 @@ impl PhyRun {
                 Some(Dev::D(d)) => catch(|| do_lw_call(d, &call, &mut to)),
                 Some(Dev::E(d)) => catch(|| plain(do_call(d, &call))),
                 Some(Dev::F(d)) => catch(|| do_lw_call(d, &call, &mut to)),
+                Some(Dev::G(d)) => catch(|| plain(do_call(d, &call))),
+                Some(Dev::H(d)) => catch(|| do_lw_call(d, &call, &mut to)),
             };
             timed_out = to;
             r
@@ -469,7 +489,7 @@ pub fn vh_phy(a: &Args) {
     let mut out = Shards::create(&a.out, "phy", a.shards);
     let mut h = 0usize;
     let mut nhist = 0usize;
-    let chips: Vec<String> = a.get("chips").unwrap_or("sx1262,sx1276,lr1110,sx1262-lw,sx1276-lw,lr1110-lw").split(',').map(|s| s.to_string()).collect();
+    let chips: Vec<String> = a.get("chips").unwrap_or("sx1262,sx1276,sx1272,lr1110,sx1262-lw,sx1276-lw,sx1272-lw,lr1110-lw").split(',').map(|s| s.to_string()).collect();
     for chip in &chips {
     let chip = chip.as_str();
     // the adapter's alphabet is small: depth 3 in both tiers
@@ -479,7 +499,7 @@ pub fn vh_phy(a: &Args) {
     let depth = if chip.ends_with("-lw") { depth.max(3) } else { depth };
     let alpha = alphabet(chip);
     let (done_tx, to_tx, done_rx, to_rx, pre_rx, herr, cad): (u16, u16, u16, u16, u16, u16, u16) =
-        if base_chip(chip) == "sx1276" { (0x08, 0x08, 0x40, 0x80, 0x10, 0x10, 0x04) } else if base_chip(chip) == "lr1110" { (0x04, 0x400, 0x08, 0x400, 0x10, 0x40, 0x100) } else { (IRQ_TX_DONE, IRQ_TIMEOUT, IRQ_RX_DONE, IRQ_TIMEOUT, IRQ_PREAMBLE, IRQ_HEADER_ERR, IRQ_CAD_DONE) };
+        if is_127(chip) { (0x08, 0x08, 0x40, 0x80, 0x10, 0x10, 0x04) } else if base_chip(chip) == "lr1110" { (0x04, 0x400, 0x08, 0x400, 0x10, 0x40, 0x100) } else { (IRQ_TX_DONE, IRQ_TIMEOUT, IRQ_RX_DONE, IRQ_TIMEOUT, IRQ_PREAMBLE, IRQ_HEADER_ERR, IRQ_CAD_DONE) };
     // all sequences up to `depth`
     let mut seqs: Vec<Vec<Step>> = vec![vec![]];
     for _ in 0..depth {
